@@ -230,7 +230,7 @@ theorem k4_of {tr : Trace} {endT : Int} (h : K4 Cfg.paper tr endT = true) {e : D
     (hend : e.t + 1200 ≤ endT) {ty : Nat} {known : List Svc} {qu : Bool} (hq : Item.query ty known qu ∈ e.items)
     {s : Svc} {t1 : Int} (hreg : (t1, s) ∈ regs tr) (hown : s.owner = e.h) (hty : s.ty = ty) (hk : known.contains s = false)
     (ht1 : t1 + 350 ≤ e.t - 1000) (hun : ∀ u ∈ unregs tr, u.2 = s → u.1 ≤ t1) :
-    ∃ sd ∈ sends tr, sd.h = e.h ∧ e.t - 1000 ≤ sd.t ∧ sd.t ≤ e.t + 1200 ∧ posFull s sd.items = true
+    ∃ sd ∈ sends tr, sd.h = e.h ∧ e.t - 1000 ≤ sd.t ∧ sd.t ≤ e.t + 1200 ∧ pos s sd.items = true
       ∧ (sd.dst = none ∨ (qu = true ∧ sd.dst = some e.src)) := by
   have h1 := List.all_eq_true.mp h e he
   simp only [Bool.or_eq_true, Bool.not_eq_true', dec_false] at h1
